@@ -314,7 +314,20 @@ def run_bytes(rec, tier):
                     data = bytes_data(n, pos, elem, suffix)
                     rec.mark("states", data)
                     scan_case(rec, md(), data, 10, {"kind": "bytes", "n": n, "pos": pos, "elem": elem, "suffix": suffix}, 1000 + len(elem) + len(suffix), limit=30)
+    # key-guessing form (-bxor without a numeric key): ciphertexts whose per-offset byte frequencies tie, which multiplies candidate keys
+    for klen in (1, 2, 3, 4, 5, 7):
+        for kb in (1, 0x41):
+            data = xorguess_data(klen, kb)
+            rec.mark("states", data, True)
+            scan_case(rec, md(), data, 10, {"kind": "xorguess", "klen": klen, "kb": kb}, 3000 + klen, limit=30)
     rec.sample({"family": "byte-array", "n": n, "elem": elem, "suffix": suffix})
+
+
+def xorguess_data(klen, kb):
+    plain = (b"This program cannot be run in DOS mode. " * 16)[:600]
+    key = bytes((kb + 7 * i) % 256 for i in range(klen))
+    enc = bytes(b ^ key[i % klen] for i, b in enumerate(plain))
+    return b"$e = " + b",".join(b"%d" % b for b in enc) + b"; $d = $e -bxor $key"
 
 
 def run_full(rec, tier):
@@ -370,3 +383,5 @@ def replay(w, rec):
     elif kind == "bytes":
         data = bytes_data(w["n"], w["pos"], w["elem"], w["suffix"])
         scan_case(rec, md(), data, 10, w, 1000, limit=30)
+    elif kind == "xorguess":
+        scan_case(rec, md(), xorguess_data(w["klen"], w["kb"]), 10, w, 3000, limit=30)
